@@ -14,14 +14,14 @@ LEAN_CONE = ['PncModel.Words', 'PncModel.Camx.Uamiv', 'PncModel.Camx.Slab', 'Pnc
              'PncProofs.BridgeLemmas', 'PncProofs.C13']
 LEMMA_FILES = ['PncProofs/SlabLemmas.lean', 'PncProofs/BridgeLemmas.lean']
 REQUIRED_THEOREMS = ['chunk_records', 'leading_eq', 'mm_decode_encode', 'single_step_rejected']
-RULE = ('files of the six formats that have both reader families and a uniform layout (one3d, humidity, vertical '
+RULE = ('wind files (both time-header variants) and files of the formats that have both reader families and a uniform layout (one3d, humidity, vertical '
         'diffusivity, temperature, height/pressure: 2-4 steps, 1-3 layers, 1-4 rows and columns, hour steps of 1 or 3 '
         'incl. midnight and year-end starts, any float32 payload; gridded average files in the domain of the record '
         'reader): the bytes of the python reference encoder (= the Lean encoder, compared) are read by the Memmap '
         'reader and by the Read reader; both views (dimension lengths, data of every variable as float32 bits, time '
         'flags where both define them) are compared with the Lean reader model and with each other; non-trivial = at '
         'least two of nz, ny*nx, nt differ from each other and from 1')
-ASSUMPTIONS = ['wind (separate per-step header and trailing record) is not covered by this check yet',
+ASSUMPTIONS = ['wind: layout (Lean encoder) and both readers are compared with the encoded content; its reader inference is not modelled; grids of at least 4 cells (records of 4, 8 or 12 bytes are indistinguishable from the closing / header records)',
                'the record readers are compared with the model and the Memmap reader, not modelled line by line: their time '
                'arithmetic (HHMM floats, 2400-per-day differences) is exercised, not proved',
                'uamiv record reader: only AVERAGE/INSTANT files with an odd hour step within one day and every count >= 2 (see DESIGN 0.5)']
@@ -33,8 +33,11 @@ def gen(rng, tier):
     n = 100 if tier == 'quick' else 3000
     out = []
     for i in range(n):
-        if i % 5 == 4:
-            c = camx.gen_uamiv_read_domain(rng)
+        if i % 5 == 3:
+            c = S.gen_wind(rng)
+            c['family'] = 'wind'
+        elif i % 5 == 4:
+            c = camx.gen_uamiv_read_domain(rng) if i % 10 == 4 else camx.gen_uamiv_emis2d(rng)
             c['family'] = 'uamiv'
         else:
             c = S.gen(rng)
@@ -66,6 +69,22 @@ def impl(case):
                 except Exception as e:
                     res[which] = dict(err='%s %s' % (type(e).__name__, str(e)[:80]))
             return res
+        if case['family'] == 'wind':
+            b = S.wind_encode(case)
+            p = os.path.join(camx.tmpdir(), 'c13w_%d_%d.bin' % (os.getpid(), np.random.randint(1 << 30)))
+            open(p, 'wb').write(b)
+            res = dict(hex=b.hex())
+            try:
+                for which in ('memmap', 'read'):
+                    try:
+                        res[which] = S.wind_view(S.wind_open(case, p, which), case)
+                    except lib.HarnessError:
+                        raise
+                    except Exception as e:
+                        res[which] = dict(err='%s %s' % (type(e).__name__, str(e)[:80]))
+                return res
+            finally:
+                os.remove(p)
         b = S.encode(case)
         p = os.path.join(camx.tmpdir(), 'c13_%d_%d.bin' % (os.getpid(), np.random.randint(1 << 30)))
         open(p, 'wb').write(b)
@@ -76,6 +95,8 @@ def impl(case):
 
 
 def to_line(case, res):
+    if case['family'] == 'wind':
+        return S.wind_line(case)
     if case['family'] == 'uamiv':
         return 'bin uamiv-read %s 0' % res['hex']
     return 'bin slab-mm %s %d %s' % (S.FORMATS[case['fmt']][0], case['nx'] * case['ny'], res['hex'])
@@ -95,6 +116,8 @@ def _diff_slab(kv, v, with_tflag):
 
 
 def agree(case, out, res):
+    if case['family'] == 'wind':
+        return None if out == 'ok ' + res['hex'] else 'the python reference encoder and the Lean wind encoder differ'
     if case['family'] == 'uamiv':
         if not out.startswith('ok '):
             return 'model ' + out[:40]
@@ -129,6 +152,20 @@ def oracle(case, res):
     a, b = res['memmap'], res['read']
     if 'err' in a or 'err' in b:
         return 'a reader raised on a valid file: memmap=%s read=%s' % (a.get('err'), b.get('err'))
+    if case['family'] == 'wind':
+        want = {k: [w for slabs in case['data'] for z in range(case['nz']) for w in slabs[2 * z + vi]]
+                for vi, k in enumerate(('U', 'V'))}
+        for nm, v in (('Memmap', a), ('Read', b)):
+            if (v['nt'], v['nz']) != (float(len(case['flags'])), float(case['nz'])):
+                return '%s reader: nt,nz = %s,%s, encoded %d,%d' % (nm, v['nt'], v['nz'], len(case['flags']), case['nz'])
+            if v['vars'] != want:
+                return '%s reader: U/V data differ from what was encoded' % nm
+        if b.get('timerange') != [[d, float(h)] for d, h in case['flags']]:
+            return 'time flags of the record reader %s, stored %s' % (b.get('timerange'), case['flags'])
+        conv = [[d + (2000000 if d < 70000 else 1900000), h * 100] for d, h in case['flags']]
+        if any(h for d, h in case['flags']) and a.get('tflag') != conv:
+            return 'Memmap TFLAG %s, stored %s' % (a.get('tflag'), conv)
+        return None
     if case['family'] == 'uamiv':
         for k in ('nspec', 'nx', 'ny', 'nz', 'nt', 'species', 'data'):
             if a.get(k) != b.get(k):
@@ -143,6 +180,8 @@ def oracle(case, res):
             return 'readers disagree on shapes %s vs %s' % (a['shapes'], b['shapes'])
     if a['vars'] != b['vars']:
         return 'readers disagree on data'
+    if 'timerange' in b and b['timerange'] != [[d, float(h)] for d, h in case['flags']]:
+        return 'time flags of the record reader %s, stored in the file (and read by Memmap) %s' % (b['timerange'], case['flags'])
     want = [w for slabs in case['data'] for s in slabs for w in s]
     kind = S.FORMATS[case['fmt']][0]
     if kind == 'one3d':
@@ -159,7 +198,7 @@ def classify(case, failure, model_out):
 
 
 def nontrivial(case, res):
-    if case['family'] == 'uamiv':
+    if case['family'] in ('uamiv', 'wind'):
         return True
     vals = {case['nz'], case['nx'] * case['ny'], len(case['flags'])}
     return len(vals - {1}) >= 2
@@ -169,6 +208,6 @@ def distribution(recs):
     d = {}
     for r in recs:
         c = r['case']
-        k = c['fmt'] if c['family'] == 'slab' else 'uamiv'
+        k = c['fmt'] if c['family'] in ('slab', 'wind') else 'uamiv'
         d[k] = d.get(k, 0) + 1
     return d
